@@ -712,7 +712,7 @@ pub fn run_prov_check(id: &str, tier: &str, seed: u64) -> i32 {
         e2e_cov = r.coverage;
         for (sig, (n, w)) in r.violations {
             if sig.starts_with("R02|e2e-not-settled-after-transport-error") {
-                st.violations.insert(format!("R16b|e2e-failure-reported-while-part-pending ({sig})"), (n, w));
+                st.violations.insert("R16b|e2e-failure-reported-while-part-pending".to_string(), (n, format!("{sig}: {w}")));
             }
         }
         *st.evals.entry("R16b-e2e").or_insert(0) += r.evals.get("R05-e2e").copied().unwrap_or(0);
